@@ -179,6 +179,15 @@ func render(v ssa.Value, d int, onstack map[ssa.Value]bool) string {
 		}
 		return "param:" + CanonParam(x.Parent(), x.Name())
 	case *ssa.FreeVar:
+		// inside a helper examined on behalf of a call site, a variable captured
+		// by one of the helper's closures is what the helper bound it to
+		if len(substStack) > 0 {
+			if b := closureBinding(x); b != nil {
+				if t := r(b); strings.Contains(t, "param:") || !strings.Contains(t, "local:") {
+					return t
+				}
+			}
+		}
 		return "free:" + CanonFree(x.Parent(), x.Name())
 	case *ssa.Const:
 		return constString(x)
@@ -238,6 +247,12 @@ func render(v ssa.Value, d int, onstack map[ssa.Value]bool) string {
 			// s[:] of an array pointer: the whole thing
 			return r(x.X)
 		}
+		// s[0:] of a slice or string is s itself
+		if k, ok := x.Low.(*ssa.Const); ok && x.High == nil && x.Max == nil && k.Value != nil && k.Value.Kind() == constant.Int && constant.Sign(k.Value) == 0 {
+			if _, isPtr := x.X.Type().Underlying().(*types.Pointer); !isPtr {
+				return r(x.X)
+			}
+		}
 		return "slice(" + r(x.X) + "," + lo + "," + hi + ")"
 	case *ssa.UnOp:
 		switch x.Op {
@@ -278,6 +293,17 @@ func render(v ssa.Value, d int, onstack map[ssa.Value]bool) string {
 		// the induction variable of a range-over-slice loop
 		if ph, ok := x.X.(*ssa.Phi); ok && ph.Comment == "rangeindex" && x.Op == token.ADD {
 			return "rangeidx"
+		}
+		// commutative operators: a constant operand is written last
+		if bt, isBasic := x.Type().Underlying().(*types.Basic); isBasic && bt.Info()&types.IsInteger != 0 {
+			if _, xc := x.X.(*ssa.Const); xc {
+				if _, yc := x.Y.(*ssa.Const); !yc {
+					switch x.Op {
+					case token.ADD, token.MUL, token.AND, token.OR, token.XOR:
+						return "(" + r(x.Y) + " " + x.Op.String() + " " + r(x.X) + ")"
+					}
+				}
+			}
 		}
 		return "(" + r(x.X) + " " + x.Op.String() + " " + r(x.Y) + ")"
 	case *ssa.Call:
@@ -482,8 +508,22 @@ func allocName(x *ssa.Alloc) string {
 	return "local:" + CanonLocal(x.Parent(), c)
 }
 
-// isIndexLoopVar: p is the counter of "for i := 0; i < len(x); i++": a phi of
-// the constant 0 and of itself plus 1, compared "< len(...)" by the branch
+// LoopStart: the first index of the hand-written index loop whose counter is
+// p (0 for a range loop).
+func LoopStart(p *ssa.Phi) int64 {
+	for _, e := range p.Edges {
+		if k, ok := e.(*ssa.Const); ok && k.Value != nil && k.Value.Kind() == constant.Int {
+			if n, ok := constant.Int64Val(k.Value); ok {
+				return n
+			}
+		}
+	}
+	return 0
+}
+
+// isIndexLoopVar: p is the counter of "for i := k; i < len(x); i++" (k >= 0; the
+// rules that need every element check LoopStart): a phi of
+// the constant k and of itself plus 1, compared "< len(...)" by the branch
 // that ends its block.
 func isIndexLoopVar(p *ssa.Phi) bool {
 	if len(p.Edges) != 2 {
@@ -493,7 +533,7 @@ func isIndexLoopVar(p *ssa.Phi) bool {
 	for _, e := range p.Edges {
 		switch x := e.(type) {
 		case *ssa.Const:
-			if x.Value != nil && x.Value.Kind() == constant.Int && constant.Sign(x.Value) == 0 {
+			if x.Value != nil && x.Value.Kind() == constant.Int && constant.Sign(x.Value) >= 0 {
 				zero = true
 			}
 		case *ssa.BinOp:
@@ -537,13 +577,31 @@ func inlineHelper(c *ssa.Call, idx int) (string, bool) {
 	if SubstDepth() > 3 || len(c.Call.Args) != len(fn.Params) || KnownFunction(fn) {
 		return "", false
 	}
-	var ret *ssa.Return
+	var rets []*ssa.Return
 	for _, b := range fn.Blocks {
 		if r, ok := b.Instrs[len(b.Instrs)-1].(*ssa.Return); ok {
-			if ret != nil {
-				return "", false
+			rets = append(rets, r)
+		}
+	}
+	var ret *ssa.Return
+	if len(rets) == 1 {
+		ret = rets[0]
+	} else {
+		// (T..., error) helpers: the value results are those of the one return
+		// whose error is nil; the other returns are failures, after which
+		// callers do not use the values
+		res := fn.Signature.Results()
+		n := res.Len()
+		if n < 2 || idx == n-1 || res.At(n-1).Type().String() != "error" {
+			return "", false
+		}
+		for _, r := range rets {
+			if k, ok := r.Results[n-1].(*ssa.Const); ok && k.Value == nil {
+				if ret != nil {
+					return "", false
+				}
+				ret = r
 			}
-			ret = r
 		}
 	}
 	if ret == nil || idx >= len(ret.Results) {
@@ -596,4 +654,42 @@ func bigEndianArray(x *ssa.Alloc, r func(ssa.Value) string) (string, bool) {
 		}
 	}
 	return found, found != ""
+}
+
+// closureBinding: the value the enclosing function binds to free variable fv
+// when it creates the closure, if that function's parameters are currently
+// substituted.
+func closureBinding(fv *ssa.FreeVar) ssa.Value {
+	cl := fv.Parent()
+	outer := cl.Parent()
+	if cl == nil || outer == nil || len(substStack) == 0 {
+		return nil
+	}
+	top := substStack[len(substStack)-1]
+	owned := false
+	for _, p := range outer.Params {
+		if _, ok := top[p]; ok {
+			owned = true
+		}
+	}
+	if !owned {
+		return nil
+	}
+	idx := -1
+	for i, f := range cl.FreeVars {
+		if f == fv {
+			idx = i
+		}
+	}
+	if idx < 0 {
+		return nil
+	}
+	for _, b := range outer.Blocks {
+		for _, in := range b.Instrs {
+			if mc, ok := in.(*ssa.MakeClosure); ok && mc.Fn == ssa.Value(cl) && idx < len(mc.Bindings) {
+				return mc.Bindings[idx]
+			}
+		}
+	}
+	return nil
 }
